@@ -17,7 +17,7 @@ def sipC : Nat := 2
 def sipD : Nat := 4
 def sipFinalXor : Nat := 255
 def xxhPrimes : List Nat := [2654435761, 2246822519, 3266489917, 668265263, 374761393]
-def xxhRot : List Nat := [13, 13, 13, 13, 1, 7, 12, 18, 17, 11, 11]
+def xxhRot : List Nat := [13, 13, 13, 13, 1, 7, 12, 18, 17, 11]
 def xxhShift : List Nat := [15, 13, 16]
 def l3MixRot : List Nat := [4, 6, 8, 16, 19, 4]
 def l3FinalRot : List Nat := [14, 11, 25, 16, 4, 14, 24]
